@@ -1,10 +1,21 @@
 #!/bin/bash
-# usage: try_mutation.sh <patch.diff> <prop> [<prop>...]   -- applies the patch to /repo, runs the checks, reverts
+# usage: try_mutation.sh <patch.diff> <prop> [<prop>...]   -- applies the patch to /repo, runs the checks, reverts.
+# The evidence files of the properties are saved and restored: committed evidence must come from runs on /repo itself.
 patch=$1; shift
 cd /repo && git status --short | grep -v '^??' | head -3
 git -C /repo apply "$patch" || { echo "PATCH DOES NOT APPLY"; exit 2; }
+tmp=$(mktemp -d)
+for p in "$@"; do cp /verif/evidence/$p.json $tmp/ 2>/dev/null; done
 for p in "$@"; do
   out=$(cd /verif && timeout 1500 /venv/bin/python check.py $p 2>&1)
   echo "== $p exit=$? violations=$(echo "$out" | grep -c '^VIOLATION') :: $(echo "$out" | grep -m3 'what:' | tr '\n' ' ' | cut -c1-400)"
 done
 git -C /repo checkout -- . ; git -C /repo status --short | grep -v '^??' | head -3
+for p in "$@"; do cp $tmp/$p.json /verif/evidence/ 2>/dev/null; done
+rm -rf $tmp
+# regenerate the translated files from the restored tree
+(cd /verif && /venv/bin/python -c "
+import sys; sys.path.insert(0,'tools')
+import gen
+for k in gen.GENERATORS: gen.GENERATORS[k]()
+" >/dev/null 2>&1)
